@@ -13,10 +13,12 @@ FIXED = ["s, S { age: == age, .. }", "re, =~ r\"^h\"", "s, S { re: =~ r\"^h\", .
 USER_BINDER_OK = lambda b: b.startswith("__") or b.startswith("cl_") or b in ("None", "_")   # noqa: E731
 
 DECLS = r'''
-#[derive(Debug)] struct S { age: i32, count: i32, re: String, actual: String, name: String, label: String, items: Vec<i32>, idx: usize, m: HashMap<String, i32> }
+#[derive(Debug)] struct S { age: i32, count: i32, re: String, actual: String, name: String, label: String, items: Vec<i32>, idx: usize, m: HashMap<String, i32>,
+  userName: i32, _hidden: i32, a__b: i32, r#type: i32, größe: i32, X: i32 }
 #[derive(Debug)] struct T { zz: String, age: i32 }
 fn mk() -> S { let mut m = HashMap::new(); m.insert("k".to_string(), 1); m.insert("age".to_string(), 2);
-  S { age: 30, count: 50, re: "hello".into(), actual: "world".into(), name: "q".into(), label: "xyz".into(), items: vec![7, 8], idx: 1, m } }
+  S { age: 30, count: 50, re: "hello".into(), actual: "world".into(), name: "q".into(), label: "xyz".into(), items: vec![7, 8], idx: 1, m,
+      userName: 30, _hidden: 30, a__b: 30, r#type: 30, größe: 30, X: 30 } }
 '''
 
 
@@ -32,6 +34,20 @@ def twin_programs():
             tw.append(("operand of == named like %s" % ("the field itself" if local == field else "a sibling field"), body, local))
             body = "let s = mk(); let {N} = 99; assert_struct!(s, S {{ %s: < {N}, .. }});" % field
             tw.append(("operand of < named like a field", body, local))
+    # field names of every lexical shape (camel case, leading underscore, double underscore, raw identifier, non-ASCII, one capital
+    # letter): the caller's local of the same name must still be what an operand names, for the field itself and for a sibling
+    odd = ("userName", "_hidden", "a__b", "r#type", "größe", "X")
+    for field in odd:
+        for local in (field, odd[(odd.index(field) + 1) % len(odd)]):
+            rel = "the field itself" if local == field else "a sibling field"
+            tw.append(("operand of == named like %s (field `%s`)" % (rel, field),
+                       "let s = mk(); let {N} = 99; assert_struct!(s, S {{ %s: == {N}, %s: _, .. }});" % (field, odd[(odd.index(field) + 1) % len(odd)]), local))
+            tw.append(("operand of < named like %s (field `%s`)" % (rel, field),
+                       "let s = mk(); let {N} = 99; assert_struct!(s, S {{ %s: < {N}, %s: _, .. }});" % (field, odd[(odd.index(field) + 1) % len(odd)]), local))
+        tw.append(("closure body using a local named like the field `%s`" % field,
+                   "let s = mk(); let {N} = 99; assert_struct!(s, S {{ %s: |c| *c < {N}, .. }});" % field, field))
+        tw.append(("nested pattern's operand named like an outer field `%s`" % field,
+                   "let s = mk(); let t = (1, s); let {N} = 7; assert_struct!(t, (_, S {{ %s: _, items: [== {N}, ..], .. }}));" % field, field))
     tw.append(("root expression named like the regex helper", "let {N} = \"hello\".to_string(); assert_struct!({N}, =~ r\"^h\");", "re"))
     tw.append(("root expression named like the regex helper (mismatch)", "let {N} = \"jello\".to_string(); assert_struct!({N}, =~ r\"^h\");", "re"))
     tw.append(("root expression named like the string helper", "let {N} = \"world\".to_string(); assert_struct!({N}, \"world\");", "actual"))
